@@ -404,6 +404,21 @@ def race_site(report):
     return m.group(1) if m else "unknown"
 
 
+def parallel_callers(chk, groups, part="concurrent_callers", timeout=900):
+    """ValueSemantics under concurrency: the pure entry points of the given groups (harness/drivers/par_pure.go) are evaluated
+    sequentially (reference) and then by 8 goroutines at once in the race-detector build; every result must equal the
+    reference and the race detector must stay silent."""
+    d = scratch("par-")
+    try:
+        res = os.path.join(d, "par.res")
+        out, races = run_harness("par.pure", None, res, {"seed": chk.seed % 60000, "only": groups}, race=True, timeout=timeout)
+        for rep in races[:3]:
+            chk.fail(race_site(rep), "data-race", rep[:1500], None)
+        return chk.ingest_results(res, part=part)
+    finally:
+        shutil.rmtree(d, ignore_errors=True)
+
+
 def tlc_depth(output):
     m = re.search(r"The depth of the complete state graph search is (\d+)", output)
     return int(m.group(1)) if m else None
